@@ -83,7 +83,7 @@ def selftest08(lines, idx):
     e = json.loads(ls[pos[0]])
     e2 = dict(e, v=e["v"] + 1)
     corrupted = ls[:pos[0]] + [json.dumps(e2, separators=(",", ":"))] + ls[pos[0] + 1:]
-    dropped = ls[:pos[0]] + ls[pos[0] + 1:]
+    dropped = ls[:pos[-1]] + ls[pos[-1] + 1:]      # the last item return: its reader always makes another call afterwards
     out = {"ran": True, "case": cid}
     for name, tr in (("corrupt_one_value", corrupted), ("drop_one_line", dropped)):
         ro = streams.validate_obs(tr, nproc=1)
@@ -140,6 +140,7 @@ def c08(tier, repo=None):
     log("  %d sequential histories sampled by TLC (StreamsSeq -simulate, %.0fs)" % (len(seqc), srun.wall_s))
     concc = streams.conc_cases(shapes, rnd, P["conc"])
     directed = streams.merge_close_cases(15 if tier == "quick" else 40)
+    directed += streams.prearray_cases(rnd, 3 if tier == "quick" else 8)
     directed += streams.remerge_cases(rnd, 12 if tier == "quick" else 30)
     directed += streams.convert_panic_cases(rnd, 4 if tier == "quick" else 12)
     directed += streams.array_alias_cases(rnd, 2 if tier == "quick" else 6)
